@@ -323,6 +323,19 @@ mod rust_types {
         pub f: Callback,
         pub s: Svc,
     }
+    // recursive types that occur only inside function / service reference types
+    candid::define_function!(pub ListSource : () -> (List));
+    candid::define_function!(pub ListSink : (List) -> ());
+    candid::define_function!(pub TreeMap : (Tree, u32) -> (Option<Tree>, u32) query);
+    candid::define_service!(pub ListServ : {
+        "next" : candid::func!((List) -> (Tree) query);
+        "src" : <ListSource as candid::CandidType>::ty()
+    });
+    #[derive(CandidType)]
+    pub struct RecRefs {
+        pub map: TreeMap,
+        pub serv: ListServ,
+    }
 }
 
 fn rec(fs: Vec<(&str, RType)>) -> RType {
@@ -449,6 +462,28 @@ fn exports() -> Vec<Export> {
             ("y", var(vec![("Left", point()), ("Right", color())])),
         ]))),
         export!("Unit", Unit, || no_env(RType::Record(vec![]))),
+        export!("ListSource", ListSource, || (list_env(), RType::func(vec![], vec![RType::Ref(0)], vec![]))),
+        export!("ListSink", ListSink, || (list_env(), RType::func(vec![RType::Ref(0)], vec![], vec![]))),
+        export!("TreeMap", TreeMap, || (tree_env(), RType::func(vec![RType::Ref(0), RType::Nat32], vec![RType::opt(RType::Ref(0)), RType::Nat32], vec![Mode::Query]))),
+        export!("ListServ", ListServ, || {
+            let mut env = list_env();
+            let off = env.append(&tree_env());
+            let t = RType::service(vec![
+                ("next".to_string(), RType::func(vec![RType::Ref(0)], vec![RType::Ref(off)], vec![Mode::Query])),
+                ("src".to_string(), RType::func(vec![], vec![RType::Ref(0)], vec![])),
+            ]);
+            (env, t)
+        }),
+        export!("RecRefs", RecRefs, || {
+            let mut env = list_env();
+            let off = env.append(&tree_env());
+            let serv = RType::service(vec![
+                ("next".to_string(), RType::func(vec![RType::Ref(0)], vec![RType::Ref(off)], vec![Mode::Query])),
+                ("src".to_string(), RType::func(vec![], vec![RType::Ref(0)], vec![])),
+            ]);
+            let map = RType::func(vec![RType::Ref(off), RType::Nat32], vec![RType::opt(RType::Ref(off)), RType::Nat32], vec![Mode::Query]);
+            (env, rec(vec![("map", map), ("serv", serv)]))
+        }),
         export!("Refs", Refs, || no_env(rec(vec![
             ("f", callback()),
             ("s", RType::service(vec![
